@@ -1938,8 +1938,8 @@ def emitter_methods():
     def fn_signature(self, f, named, weak=False):
         rt = self.ct(f.ret)
         self.complete(f.ret)
-        if weak and f.ret[0] == 'ptr' and f.ret[1][0] == 'named' and re.search(r'\.\d+$', f.ret[1][1]):
-            rt = 'void*'   # numbered (merge-dependent) struct name: stubs return void*
+        if weak and f.ret[0] == 'ptr' and f.ret[1][0] == 'named' and f.ret[1][1] not in STABLE_STRUCTS:
+            rt = 'void*'   # stubs/models return void* (struct names can be merge-dependent)
         ps = []
         for t, n, a in f.params:
             self.complete(t) if t[0] in ('struct', 'named') else self.ct(t)
